@@ -13,6 +13,7 @@ import BespokeVerif.Model.Subst
 import BespokeVerif.Model.Output
 import BespokeVerif.Model.Pipeline
 import BespokeVerif.Model.Select
+import BespokeVerif.Model.Macro
 open Lean BV
 
 namespace Drv
@@ -468,6 +469,45 @@ def opStmt (j : Json) : R Json := do
   | .ok (i, bs) => return Json.mkObj [("variant", Json.num (JsonNumber.fromNat i)), ("bytes", jNats bs), ("sel", sel)]
   | .error e => return Json.mkObj [("err", Json.str e.name), ("sel", sel)]
 
+def parseTForm (j : Json) : R TForm := do
+  let t ← str j "t"
+  match t with
+  | "fixed" => return .fixed (← parseForm (← fld j "form"))
+  | "arg" => return .arg (← nat j "n")
+  | "indArg" => return .indArg (← nat j "n")
+  | "argPlus" => return .argPlus (← nat j "n") (← int j "k")
+  | "reg" => return .reg (← nat j "n")
+  | "indReg" => return .indReg (← nat j "n")
+  | "op" => return .op (← nat j "n")
+  | _ => throw s!"tform {t}"
+
+/-- op "macro": macro variant selection, template instantiation, step-by-step assembly -/
+def opMacro (j : Json) : R Json := do
+  let regs ← (← arr j "regs").toList.mapM fun r => r.getStr?
+  let gz := (intD j "gs" 0, intD j "ge" 65535)
+  let env ← parseEnv j
+  let addr := intD j "addr" 0
+  let tbl ← (← arr j "instrs").toList.mapM fun e => do
+    pure ((← str e "mn"), (← (← arr e "variants").toList.mapM parseVariant))
+  let mvs ← (← arr j "macro").toList.mapM fun mv => do
+    let steps ← (← arr mv "steps").toList.mapM fun st => do
+      pure ({ mnemonic := ← str st "mn", ops := ← (← arr st "ops").toList.mapM parseTForm } : Step)
+    pure ({ operands := ← parseVariant (← fld mv "operands"), steps := steps } : MacroVariant)
+  let forms ← (← arr j "forms").toList.mapM parseForm
+  let exp := expandMacro regs gz mvs forms
+  let jexp : Json := match exp with
+    | .ok (i, steps) => Json.mkObj [("variant", Json.num (JsonNumber.fromNat i)), ("nsteps", Json.num (JsonNumber.fromNat steps.length)),
+        ("sizes", match stepSizes regs gz tbl steps with | some l => jNats l | none => Json.null)]
+    | .error e => jErr e
+  let spec : Json := match exp with
+    | .ok (_, steps) => match specSteps regs gz env tbl addr steps with
+      | .ok bss => Json.mkObj [("steps", Json.arr (bss.map jNats).toArray)]
+      | .error e => jErr e
+    | .error e => jErr e
+  match assembleMacro regs gz env tbl addr mvs forms with
+  | .ok (i, bs) => return Json.mkObj [("variant", Json.num (JsonNumber.fromNat i)), ("bytes", jNats bs), ("exp", jexp), ("spec", spec)]
+  | .error e => return Json.mkObj [("err", Json.str e.name), ("exp", jexp), ("spec", spec)]
+
 def dispatch (j : Json) : R Json := do
   let op ← str j "op"
   match op with
@@ -479,6 +519,7 @@ def dispatch (j : Json) : R Json := do
   | "substprog" => opSubstProg j
   | "decode" => opDecode j
   | "stmt" => opStmt j
+  | "macro" => opMacro j
   | "ping" => pure (Json.mkObj [("pong", Json.bool true)])
   | _ => throw s!"unknown op {op}"
 
